@@ -55,9 +55,12 @@ def strip_dup(obs):
                 o["flagged_duplicate_of_a_block_the_library_does_not_hold"] = True
             if o.get("dup_same_key") is False:
                 o["flagged_duplicate_of_a_block_with_another_key"] = True
+            if o.get("dup_prev_held") and o.get("dup_prev_before") is False:
+                o["flagged_duplicate_of_a_LATER_block"] = True          # first wins: text that follows cannot take a key away
         o.pop("dup_key", None)
         o.pop("dup_prev_held", None)
         o.pop("dup_same_key", None)
+        o.pop("dup_prev_before", None)
         out.append(o)
     return out
 
@@ -244,6 +247,11 @@ def run(chk: core.Check):
             extra = "@article{%s, title = {T}}\n" % key.upper()
             d1, x = (d1 + ("\n" if d1 and not d1.endswith("\n") else "") + extra, x) if rnd.random() < 0.5 else (d1, extra + x)
             d2 = "@article{%s,\n  title = {t}\n}\n" % key + d2
+        if k % 40 == 13:
+            # D1 ends with a key-only entry; the middle text holds a fuller entry with the same key
+            key = "stub%d" % rnd.randint(0, 9)
+            d1 = d1 + ("\n" if d1 and not d1.endswith("\n") else "") + "@article{%s}\n" % key
+            x = "@article{%s, title = {T}, year = 1}\n" % key + x
         if k % 40 == 11:
             # @string names that differ only in letter case, the later one in the middle text
             d1 = d1 + ("\n" if d1 and not d1.endswith("\n") else "") + "@string{acm = \"A\"}\n@article{e-ref, publisher = acm}\n"
